@@ -42,6 +42,7 @@ RULE = ("seeded generator of training worlds: 1-5 training conditions drawn from
         "bystander conditions built with the shared objects before the trained ones and never given to a Solver; nothing "
         "of the library is reset between stages or cases of a worker process; a case is non-trivial when the state after every step was compared with a reference that moved; "
         "distinct = (condition kinds, model kinds, #parameters, optimizer, scheduler, validation, epochs)")
+RULE += '; 20 cases per run in which several conditions share one name; long runs (1210-1330 steps) with schedulers every 7 / 300 / 400 steps'
 REQUIRED_REACH = ["Solver.training_step", "Solver.on_train_start", "Solver.validation_step",
                   "Solver.configure_optimizers", "AdaptiveWeightLayer.GradReverse.backward", "Parameter.__init__",
                   "AdaptiveWeightsCondition.__init__", "PeriodicCondition.forward", "DataCondition.forward",
